@@ -1,29 +1,10 @@
 ------------------------------ MODULE C01Trace ------------------------------
 (* Trace validation for C01 (and the cumsum half of C09): every recorded call of *)
 (* Grid.diff/interp/min/max/cumsum on a simple grid is recomputed geometrically.  *)
-EXTENDS Stencil, GridModel, Json, IOUtils, TLC
+EXTENDS Calls, Json, IOUtils, TLC
 
 Tr == ndJsonDeserialize(IOEnv.TRACE_FILE)
 VARIABLE i
-
-\* steps for the axes named in the call, threading the dimension names
-RECURSIVE StepsFrom(_, _, _, _)
-StepsFrom(r, dims, k, acc) ==
-  IF k > Len(r.args.axis) THEN <<acc, dims>>
-  ELSE LET ax == AxisOf(r.grid, r.args.axis[k])
-           from == ThePos(ax, dims)
-           to == ToOf(r.grid.ctor, r.args.to, ax, from)
-           old == DimOfPos(ax, from)
-           st == [d |-> IndexOf(dims, old), from |-> from, to |-> to,
-                  rule |-> RuleInForce(r.grid.ctor, r.args.boundary, ax.name),
-                  fill |-> FillInForce(r.grid.ctor, r.args.fill_value, ax.name)]
-       IN StepsFrom(r, ReplaceDim(dims, old, DimOfPos(ax, to)), k + 1, Append(acc, st))
-
-Expected(r) ==
-  LET sd == StepsFrom(r, r.args.data.dims, 1, <<>>)
-      a == [shape |-> r.args.data.shape, flat |-> r.args.data.flat]
-  IN [dims |-> sd[2],
-      arr |-> IF r.op = "cumsum" THEN CumsumSteps(a, sd[1], 1) ELSE StencilSteps(a, r.op, sd[1], 1, 1)]
 
 Verdict(r) ==
   IF r.out.k # "array" THEN "raised-on-valid-call"
